@@ -89,11 +89,56 @@ theorem mnmLookup_writeMnm_other (seg seg' : Nat) (ns : List Nat) (l : List (Nat
         simp [writeMnm, mnmLookup, hne]
       · simp [writeMnm, mnmLookup, hs, hs', ih]
 
-/-- what RecoverMNameWALData does, stated without steps: the names of the WAL are the segment's .mnm file (nothing is
-written for an empty WAL), the other .mnm files are untouched, the WAL is gone -/
+theorem mnmNamesOf_writeMnm (seg : Nat) (ns : List Nat) (l : List (Nat × List Nat)) :
+    mnmNamesOf seg (writeMnm seg ns l) = ns := by
+  induction l with
+  | nil => simp [writeMnm, mnmNamesOf]
+  | cons sv r ih =>
+    obtain ⟨s, v⟩ := sv
+    by_cases hs : s = seg
+    · simp [writeMnm, mnmNamesOf, hs]
+    · simp [writeMnm, mnmNamesOf, hs, ih]
+
+theorem mnmNamesOf_eq_lookup (seg : Nat) (l : List (Nat × List Nat)) :
+    mnmNamesOf seg l = (mnmLookup seg l).getD [] := by
+  induction l with
+  | nil => rfl
+  | cons sv r ih =>
+    obtain ⟨s, v⟩ := sv
+    by_cases hs : s = seg
+    · simp [mnmNamesOf, mnmLookup, hs]
+    · simp [mnmNamesOf, mnmLookup, hs, ih]
+
+theorem mem_mergeNames (old new : List Nat) (n : Nat) : n ∈ mergeNames old new ↔ n ∈ old ∨ n ∈ new := by
+  simp only [mergeNames, List.mem_append, List.mem_filter, List.contains_eq_mem, Bool.not_eq_true', decide_eq_false_iff_not]
+  constructor
+  · rintro (h | ⟨h, _⟩)
+    · exact Or.inl h
+    · exact Or.inr h
+  · rintro (h | h)
+    · exact Or.inl h
+    · by_cases ho : n ∈ old
+      · exact Or.inl ho
+      · exact Or.inr ⟨h, ho⟩
+
+/-- names that the file already has add nothing -/
+theorem mergeNames_of_subset (old new : List Nat) (h : ∀ n ∈ new, n ∈ old) : mergeNames old new = old := by
+  have : new.filter (fun n => !old.contains n) = [] := by
+    rw [List.filter_eq_nil_iff]
+    intro n hn
+    simp [h n hn]
+  unfold mergeNames
+  rw [this, List.append_nil]
+
+theorem mergeNames_idem (old new : List Nat) : mergeNames (mergeNames old new) new = mergeNames old new :=
+  mergeNames_of_subset _ _ (fun n hn => (mem_mergeNames old new n).2 (Or.inr hn))
+
+/-- what RecoverMNameWALData does, stated without steps: the segment's .mnm file holds the names it held before and the
+names of the WAL (nothing is written for an empty WAL), the other .mnm files are untouched, the WAL is gone -/
 theorem recoverNames_spec (seg : Nat) (ns : List Nat) (mnm : List (Nat × List Nat)) :
     (recoverNames seg { wal := some ns, mnm := mnm }).wal = none ∧
-    (recoverNames seg { wal := some ns, mnm := mnm }).mnm = (if ns.isEmpty then mnm else writeMnm seg ns mnm) := by
+    (recoverNames seg { wal := some ns, mnm := mnm }).mnm =
+      (if ns.isEmpty then mnm else writeMnm seg (mergeNames (mnmNamesOf seg mnm) ns) mnm) := by
   unfold recoverNames nameActions
   by_cases he : ns.isEmpty = true
   · simp [he, applyNameAct]
@@ -114,9 +159,21 @@ theorem name_recovery_crash_safe (m seg : Nat) (nd : NameDisk) :
       match m with
       | 0 => simp [namesAfterCrashedRecovery, recoverNamesCrashed, recoverNames, nameActions, he]
       | 1 =>
-        simp [namesAfterCrashedRecovery, recoverNamesCrashed, recoverNames, nameActions, he, applyNameAct, writeMnm_idem]
+        simp [namesAfterCrashedRecovery, recoverNamesCrashed, recoverNames, nameActions, he, applyNameAct, writeMnm_idem,
+          mnmNamesOf_writeMnm, mergeNames_idem]
       | m + 2 =>
         simp [namesAfterCrashedRecovery, recoverNamesCrashed, recoverNames, nameActions, he, applyNameAct]
+
+/-- a segment rotation that died after FlushMetricNames: the file holds ALL names of the segment, the name WAL those whose
+append had completed (a subset).  Recovery leaves exactly the names of the file. -/
+theorem recoverNames_after_rotation_flush (seg : Nat) (walNames allNames : List Nat) (mnm : List (Nat × List Nat))
+    (hsub : ∀ n ∈ walNames, n ∈ allNames) :
+    mnmLookup seg (recoverNames seg { wal := some walNames, mnm := writeMnm seg allNames mnm }).mnm = some allNames := by
+  rw [(recoverNames_spec seg walNames _).2]
+  by_cases he : walNames.isEmpty = true
+  · simp [he, mnmLookup_writeMnm]
+  · simp only [he, Bool.false_eq_true, if_false, mnmNamesOf_writeMnm, mnmLookup_writeMnm]
+    rw [mergeNames_of_subset allNames walNames hsub]
 
 /-- before the repair c10-5: the name WAL was deleted first; a restart that died right after that step lost the names -/
 theorem name_recovery_old_loses :
